@@ -96,6 +96,10 @@ def mk_array(cells, shape=None, dtype="float", maskform="auto", payload=0):
     return arr
 
 
+# result names of the producers by position: name order, positional order and hash order all differ
+PRODUCER_NAMES = ("d_in", "a_in", "c_in", "b_in", "e_in", "B_in")
+
+
 def producer(name, arr, fuzzy=False):
     from mpilot.commands import Command
 
@@ -131,7 +135,7 @@ def execute(cmd, arrays, params, fuzzy_inputs=None):
     """Run the real command.  Returns ("ok", result) | ("err", exception)."""
     if fuzzy_inputs is None:
         fuzzy_inputs = SIG.input_fuzz(cmd) == "fz"
-    prods = [producer("in%d" % i, a, fuzzy_inputs) for i, a in enumerate(arrays)]
+    prods = [producer(PRODUCER_NAMES[i % len(PRODUCER_NAMES)] + ("" if i < len(PRODUCER_NAMES) else str(i)), a, fuzzy_inputs) for i, a in enumerate(arrays)]
     inst = cls_of(cmd)("res")
     try:
         with numpy.errstate(all="ignore"):
@@ -146,7 +150,7 @@ def run_via_command(cmd, arrays, params, fuzzy_inputs=None):
 
     if fuzzy_inputs is None:
         fuzzy_inputs = SIG.input_fuzz(cmd) == "fz"
-    prods = [producer("in%d" % i, a, fuzzy_inputs) for i, a in enumerate(arrays)]
+    prods = [producer(PRODUCER_NAMES[i % len(PRODUCER_NAMES)] + ("" if i < len(PRODUCER_NAMES) else str(i)), a, fuzzy_inputs) for i, a in enumerate(arrays)]
     kw = kwargs_for(cmd, prods, params)
     inst = cls_of(cmd)("res", [Argument(k, v) for k, v in kw.items()])
     try:
